@@ -57,23 +57,24 @@ extern "C" void h_nested(void) {
    vp_done();
 }
 
-// histories of requests whose operand is the base type or any earlier result: every result is the node of (union of sets, base)
+// histories of requests whose operand is one of three unqualified types (several main variants share the table) or any earlier result:
+// every result is the node of (union of sets, innermost unqualified type), however it was reached
 #ifndef C11_K
 #define C11_K 3
 #endif
 extern "C" void h_request_history(void) {
    World* w = new World; auto& lx = w->lx;
-   const ipr::Type& t = *w->T[vp_pick(3)];
-   const ipr::Qualified* res[C11_K]; uint64_t acc[C11_K];
+   const ipr::Qualified* res[C11_K]; uint64_t acc[C11_K]; unsigned base[C11_K];
    for (int k = 0; k < C11_K; ++k) {
       uint64_t q = 1 + vp_pick(7);                          // a non-empty subset of {const, volatile, restrict}
-      unsigned on = vp_pick(k + 1);                          // 0 = the base type, i = the result of request i-1
-      const ipr::Type& operand = on == 0 ? t : static_cast<const ipr::Type&>(*res[on - 1]);
-      acc[k] = q | (on == 0 ? 0 : acc[on - 1]);
+      unsigned on = vp_pick(3 + k);                          // 0..2 = one of the three unqualified types (address-sorted), 3+i = the result of request i
+      const ipr::Type& operand = on < 3 ? *w->T[on] : static_cast<const ipr::Type&>(*res[on - 3]);
+      base[k] = on < 3 ? on : base[on - 3];
+      acc[k] = q | (on < 3 ? 0 : acc[on - 3]);
       res[k] = &lx.get_qualified(ipr::Qualifiers(q), operand);
-      vp_assert(util::rep(res[k]->qualifiers()) == acc[k] && &res[k]->main_variant() == &t, 30);
-      for (int j = 0; j < k; ++j) vp_assert((res[j] == res[k]) == (acc[j] == acc[k]), 31);
+      vp_assert(util::rep(res[k]->qualifiers()) == acc[k] && &res[k]->main_variant() == w->T[base[k]], 30);
+      for (int j = 0; j < k; ++j) vp_assert((res[j] == res[k]) == (acc[j] == acc[k] && base[j] == base[k]), 31);
    }
-   for (int k = 0; k < C11_K; ++k) vp_assert(&lx.get_qualified(ipr::Qualifiers(acc[k]), t) == res[k], 32);
+   for (int k = 0; k < C11_K; ++k) vp_assert(&lx.get_qualified(ipr::Qualifiers(acc[k]), *w->T[base[k]]) == res[k], 32);       // the one-step request is the same node
    vp_done();
 }
